@@ -546,12 +546,24 @@ def serial_case(driver, seed, part, i, res):
     dmap = DeviceInstanceTypeMapper()
     # the application may hand the driver its (still empty) map and fill it afterwards through its own reference
     fill_later = i % 3 == 2
-    if not fill_later:
+    # ... or the map learns an instance in the middle of the traffic (a scan finishing, the application adding an entry):
+    # the same event frame is ambiguous before and decoded afterwards
+    learn_mid = i % 4 == 1 and not fill_later
+    if not fill_later and not learn_mid:
         dmap.add_type(short_address=3, instance_number=1, instance_type=1)
     picker = simlib.Picker(r)
     sim = simlib.Sim(driver, picker, dev_inst_map=dmap)
     txs, tags = gen_transactions(r, r.randint(2, 8))
     frames = [(t_, w_, v_) for (t_, k_, w_, v_) in flatten(txs, 0.3) if k_ == "F"]
+    t_learn = None
+    if learn_mid:
+        from models import events_ref as _E
+        ev_frame = _E.encode_event("device_instance", 1, 2, short_address=3, instance_number=1)
+        t_last = max([f_[0] for f_ in frames] + [0.3])
+        frames.insert(0, (0.12, 24, ev_frame))
+        frames.append((round(t_last + 0.5, 6), 24, ev_frame))
+        frames.append((round(t_last + 0.7, 6), 24, ev_frame))
+        t_learn = t_last + 0.3
     # sometimes an own transmission falls between another master's ENABLE DEVICE TYPE and its extended command
     sandwich = r.random() < 0.25
     if sandwich:
@@ -606,6 +618,9 @@ def serial_case(driver, seed, part, i, res):
         if fill_later:
             dmap.add_type(short_address=3, instance_number=1, instance_type=1)
             res.hit("map_filled_after_construction")
+        if learn_mid:
+            w.at(t_learn, lambda: dmap.add_type(short_address=3, instance_number=1, instance_type=1))
+            res.hit("map_learns_mid_history")
 
         def join(k):
             queues[k] = d.new_dali_rx_queue()
@@ -668,7 +683,8 @@ def serial_case(driver, seed, part, i, res):
         dt = 0
         for (t_, w_, v_, origin) in seen:
             if origin == "foreign" or driver == "sci":      # the SCI gateway echoes own transmissions as observed frames
-                ref = command.from_frame(frame.ForwardFrame(w_, v_), devicetype=dt, dev_inst_map=dmap)
+                the_map = DeviceInstanceTypeMapper() if (learn_mid and t_ < t_learn) else dmap
+                ref = command.from_frame(frame.ForwardFrame(w_, v_), devicetype=dt, dev_inst_map=the_map)
                 expected.append((t_, w_, v_, type(ref).__name__, str(ref)))
             # the device type context is a property of the bus: any frame in between cancels an ENABLE DEVICE TYPE
             dt = (v_ & 0xFF) if (w_ == 16 and v_ >> 8 == 0xC1) else 0
